@@ -19,7 +19,7 @@ def run(ctx):
     for u in ("expr", "meta"):
         vecs, subj, nsub = fr.universe_vectors(ctx, u, bounds, "C03")
         tot += len(vecs)
-        sel = fr.sample(ctx, vecs, 64 if quick else None)
+        sel = fr.sample(ctx, vecs, 64 if quick else 480)      # (all pairs x 9 positions is 5 GB of recorded trees)
         for k, v in enumerate(sel):
             v["tmpl"] = "exprs"      # every subject at nine syntactic positions
             v["subj_stride"], v["subj_offset"] = (8, k) if quick else (3, k)
@@ -34,7 +34,7 @@ def run(ctx):
     cov = dict(states=states, transitions=trans, traces_validated_against_impl=st["cases"],
                samples=[fr.short_sample(results[0]), fr.short_sample(results[-1])],
                evaluations=st["cases"], distinct_nontrivial=st["nontrivial"], sites_judged=st["sites"],
-               exhaustive=not quick, universe_pairs=tot, slot_vectors=len(slots), model_drift_cases=st["drift"],
+               exhaustive=False, universe_pairs=tot, slot_vectors=len(slots), model_drift_cases=st["drift"],
                rule="pairs of the expr and meta universes (replacements use, duplicate, reorder, drop metavariables) x all subjects, each subject at nine syntactic positions of one file (every site has its own binding); plus slot-admissibility vectors; non-trivial = at least one instance in the input",
                cases_failing=st["failing"], sites_failed=st["sites_failed"])
     return ctx.finish("model_checking", cov, ASSUME)
